@@ -188,6 +188,12 @@ func (idx *IVFPQIndex) Train(vectors []VectorNode) error {
 	if len(vectors) < idx.nlist*10 {
 		return fmt.Errorf("need at least %d vectors for training", idx.nlist*10)
 	}
+	// Every subspace codebook needs Ksub centroids; with fewer training vectors
+	// k-means returns fewer centroids and the codebook copy below would index
+	// past them.
+	if len(vectors) < idx.Ksub {
+		return fmt.Errorf("need at least %d vectors for training", idx.Ksub)
+	}
 
 	// Validate dimensionality
 	for _, v := range vectors {
